@@ -101,7 +101,8 @@ pub const W_DUP: [usize; 10] = [36, 38, 40, 50, 88, 92, 92, 95, 98, 99];
 pub fn graph_scenario(idx: usize, rng: &mut Rng, o: &GraphOpts, family: &str) -> World {
     let mut w = World::new(o.enc, o.obs, idx, family);
     w.log_patches = o.log_patches;
-    w.desc_actors = family == "ids";
+    w.desc_actors = family == "ids" || family == "idshi";
+    w.hi_actors = family == "idshi";
     let mut next_actor: u8 = 1;
     let n0 = 2 + rng.below(2);
     for _ in 0..n0 {
@@ -123,7 +124,7 @@ pub fn graph_scenario(idx: usize, rng: &mut Rng, o: &GraphOpts, family: &str) ->
     }
     let wt = o.weights;
     let cursors = matches!(family, "cursor" | "cursortext");
-    let ids = family == "ids";
+    let ids = family == "ids" || family == "idshi";
     for _ in 0..o.steps {
         if w.dead {
             break;
@@ -166,7 +167,9 @@ pub fn graph_scenario(idx: usize, rng: &mut Rng, o: &GraphOpts, family: &str) ->
             if total < o.max_changes {
                 let h = random_antichain(&w, r, rng);
                 if !h.is_empty() {
-                    let k = 1 + rng.below(2);
+                    // sometimes an isolated transaction without any call (it commits nothing, but has
+                    // already chosen - and must give back - its isolated actor)
+                    let k = rng.below(3);
                     w.commit(r, rng, &o.prof, k, None, Some(h));
                 }
             }
@@ -201,7 +204,7 @@ pub fn graph_scenario(idx: usize, rng: &mut Rng, o: &GraphOpts, family: &str) ->
         } else if c < wt[5] {
             if n < o.max_reps {
                 let actor = if o.dup_actors && rng.chance(1, 3) {
-                    enc::actor_num(w.reps[r].get_actor()) as u8
+                    (enc::actor_num(w.reps[r].get_actor()) % 256) as u8
                 } else {
                     next_actor += 1;
                     next_actor - 1
@@ -279,7 +282,7 @@ pub fn graph_scenario(idx: usize, rng: &mut Rng, o: &GraphOpts, family: &str) ->
             }
         }
     }
-    if family == "migrate" {
+    if family == "migrate" || family == "migrateconf" {
         for r in 0..w.n() {
             if !w.dead {
                 w.migrate(r);
